@@ -76,9 +76,20 @@ Weight(i) ==
         IN  IF i = j THEN RSub(One, t) ELSE IF i = j + 1 THEN t ELSE Zero
 Value == RSum([i \in 1..N |-> RMul(Weight(i), R(cfg.fp[i]))], 1, N)
 
+(* derivative with respect to the *nodes* xp (the semi-Lagrangian vertical advection step
+   differentiates through its departure points): defined where the query is at no node; with the
+   active segment j, t = (x - xp[j]) / h, s = slope(j):  d/dxp[j] = -(1-t) s,  d/dxp[j+1] = -t s *)
+NodeFree == \A i \in 1..N : ~AtNode(i)
+DNode(i) ==
+   IF (Below \/ Above) /\ cfg.mode = "const" THEN Zero
+   ELSE LET j == IF Below THEN 1 ELSE IF Above THEN N - 1 ELSE Seg
+            t == RDiv(RSub(X, R(cfg.xp[j])), R(cfg.xp[j + 1] - cfg.xp[j]))
+        IN  IF i = j THEN RNeg(RMul(RSub(One, t), Slope(j)))
+            ELSE IF i = j + 1 THEN RNeg(RMul(t, Slope(j))) ELSE Zero
 Interp == /\ pc = "new" /\ cfg.kind = "interp"
           /\ res' = [missing |-> Missing, lo |-> RMin(LeftSlope, RightSlope), hi |-> RMax(LeftSlope, RightSlope),
-                     kink |-> LeftSlope # RightSlope, w |-> [i \in 1..N |-> Weight(i)], value |-> Value]
+                     kink |-> LeftSlope # RightSlope, w |-> [i \in 1..N |-> Weight(i)], value |-> Value,
+                     dxp |-> IF NodeFree THEN [i \in 1..N |-> DNode(i)] ELSE <<>>]
           /\ pc' = "done" /\ UNCHANGED cfg
 (* ---- upwind flux  F(w) = -(max(w, 0) a + min(w, 0) b) ---- *)
 Upwind == /\ pc = "new" /\ cfg.kind = "upwind"
@@ -111,6 +122,9 @@ WeightsConsistent == (Done /\ cfg.kind = "interp") =>
 Bounded == (Done /\ cfg.kind = "interp") =>
    /\ \E i \in 1..N - 1 : RLe(Slope(i), res.hi) \/ res.hi = Zero
    /\ ((cfg.mode = "const" /\ (Below \/ Above)) => (res.lo = Zero /\ res.hi = Zero))
+(* translating nodes and query together changes nothing: d/dx + sum_i d/dxp[i] = 0 *)
+TranslationInvariant == (Done /\ cfg.kind = "interp" /\ res.dxp # <<>> /\ ~res.missing) =>
+   RAdd(res.lo, RSum(res.dxp, 1, N)) = Zero
 (* an upwind flux with equal one-sided data is smooth *)
 UpwindSmoothWhenEqual == (Done /\ cfg.kind = "upwind" /\ cfg.a = cfg.b) => res.lo = res.hi
 Export == Done => PrintT(<<"CASE", ToJson([cfg |-> cfg, res |-> res])>>)
